@@ -102,10 +102,20 @@ func main() {
 			if err != nil {
 				return map[string]any{"harness_err": err.Error()}
 			}
-			b.SetPassCred(1)
+			// late_passcred: credentials are asked for only when the first message is about to be received (they were sent before)
+			late := c["late_passcred"] == true
+			if !late {
+				b.SetPassCred(1)
+			}
 			before := nfds()
 			obs := []any{}
 			var pending [][]*os.File
+			// received messages stay in use until the end of the history: they are looked at only then
+			type heldMsg struct {
+				o map[string]any
+				m unixsocket.Msg
+			}
+			var held []heldMsg
 			for _, raw := range c["ops"].([]any) {
 				op := raw.(map[string]any)
 				o := map[string]any{}
@@ -125,6 +135,10 @@ func main() {
 					o["ids"] = ids
 					pending = append(pending, fs)
 				case "recv":
+					if late {
+						b.SetPassCred(1)
+						late = false
+					}
 					buf := make([]byte, int(hx.Int(op["buf"])))
 					n, m, err := b.RecvMsg(buf)
 					o["err"] = errs(err)
@@ -137,23 +151,39 @@ func main() {
 						}
 					}
 					o["payload_ok"] = ok
-					ids := [][2]uint64{}
-					clo := true
-					for _, f := range m.Fds {
-						ids = append(ids, ident(f))
-						fl, _, _ := syscall.Syscall(syscall.SYS_FCNTL, uintptr(f), syscall.F_GETFD, 0)
-						if fl&1 == 0 {
-							clo = false
-						}
-						syscall.Close(f)
-					}
-					o["ids"] = ids
-					o["cloexec"] = clo
-					if m.Cred != nil {
-						o["cred"] = []int64{int64(m.Cred.Pid), int64(m.Cred.Uid), int64(m.Cred.Gid)}
-					}
+					o["ids"] = [][2]uint64{}
+					o["cloexec"] = true
+					held = append(held, heldMsg{o, m})
 				}
 				obs = append(obs, o)
+			}
+			closed := map[int]bool{}
+			for _, h := range held {
+				ids := [][2]uint64{}
+				clo := true
+				for _, f := range h.m.Fds {
+					if closed[f] {
+						// the same number in two messages: the second holder finds whatever the number means by now
+						ids = append(ids, [2]uint64{0, 0})
+						continue
+					}
+					ids = append(ids, ident(f))
+					fl, _, _ := syscall.Syscall(syscall.SYS_FCNTL, uintptr(f), syscall.F_GETFD, 0)
+					if fl&1 == 0 {
+						clo = false
+					}
+				}
+				for _, f := range h.m.Fds {
+					if !closed[f] {
+						syscall.Close(f)
+						closed[f] = true
+					}
+				}
+				h.o["ids"] = ids
+				h.o["cloexec"] = clo
+				if h.m.Cred != nil {
+					h.o["cred"] = []int64{int64(h.m.Cred.Pid), int64(h.m.Cred.Uid), int64(h.m.Cred.Gid)}
+				}
 			}
 			for _, fs := range pending {
 				for _, f := range fs {
